@@ -110,4 +110,23 @@ PROPS = {
                 "length and subscription identifier, boolean properties with values 2..255, undefined identifiers after j valid properties; "
                 "each also rejected by the strict specification decoder; all non-trivial",
     },
+    "C13": {
+        "suites": [("write", 1500, 20000), ("render", 1000, 10000)],
+        "oracle": (400, 20000),
+        "race": True,
+        "coqchk": True,
+        "rule": "binary built with the Go race detector: per generated packet of every type 8 goroutines x 20 random read-only operations "
+                "(WriteTo, String, Dump, WellFormed, accessors, direct use of a shared will message, ReadPacket on private streams); bytes/text "
+                "compared with the sequential result; all non-trivial",
+        "assumptions": ["the Go memory model, runtime and standard library are outside the model",
+                        "absence of shared writes in the Go read-only API is established by the race detector campaign, not by proof"],
+    },
+    "C14": {
+        "suites": [("unm", 3000, 40000), ("read", 2000, 30000)],
+        "oracle": (2000, 60000),
+        "rule": "decode (UnmarshalBinary of every type incl. Undefined), snapshot, overwrite the input with its complement, snapshot again; pools of 6 "
+                "decoded packets x 12 operations (setters, writes into returned slices, encode/render, re-decode) with bystander snapshots; "
+                "package-level protocol name unchanged; non-trivial = body longer than 2 bytes / every pool step",
+        "assumptions": ["aliasing in the Go heap is observed by the scribble and pool oracles; the model's provenance annotations are hand-written"],
+    },
 }
